@@ -16,6 +16,7 @@ layout keys (all optional except bits/events):
   offsets   'header' (default) | 'text' (3.x: HEADER data offsets 0, TEXT carries them)
   end       'last' (default) | 'onepast'
   pad       bytes of padding between segments (default 0)
+  pad_before  {segment name: extra bytes of padding in front of that segment} (e.g. {'data': 10**7}: offsets filling all 8 HEADER columns)
   delim     default '/'
   extra     ordered list of (keyword, value) added to the primary TEXT
   stext     list of (k, v) for a supplemental TEXT segment, or None
@@ -122,7 +123,9 @@ def build(layout):
     text_begin = text_end = None
     stext_begin = stext_end = 0
     an_begin = an_end = 0
+    pad_before = layout.get('pad_before') or {}
     for seg in order:
+        pos += pad_before.get(seg, 0)
         if seg == 'text':
             text_begin = pos
             text_end = pos + tlen - 1
